@@ -99,6 +99,10 @@ func plyRow(props []*ff.PLYProperty, rng *rand.Rand) []ff.PLYValue {
 		if rng.Intn(6) == 0 {
 			lens = []int{255}
 		}
+		if p.LenType != ff.PLYPropertyTypeUchar && p.LenType != ff.PLYPropertyTypeUint8 && rng.Intn(5) == 0 {
+			// longer than any capacity hint of the reader (length types wider than a byte only)
+			lens = []int{1024, 1025, 1500}
+		}
 		n := lens[rng.Intn(len(lens))]
 		vals := make([]ff.PLYValue, n)
 		for j := range vals {
